@@ -37,6 +37,8 @@ def run(run):
     run.require('map.packets_applied', 50)
     run.require('position.updates', 500)
     run.require('enum.names_parsed', 500)
+    run.require('enum.order_probes', 4)
+    run.require('map.partial_row_patches', 5)
     run.require('record.equal_pairs', 50)
     run.require('vector.ops', 500)
     if run.shard == 0:
@@ -186,7 +188,13 @@ def maps(run, thorough):
                 ox = rng.choice((0, 128 - w, rng.randrange(0, 128 - w + 1)))
                 oz = rng.choice((0, 128 - hgt, rng.randrange(0, 128 - hgt + 1)))
                 pkt.offset = (ox, oz)
-                pkt.pixels = bytes(rng.getrandbits(8) for _ in range(w * hgt))
+                npix = w * hgt
+                if w > 1 and rng.random() < 0.25:
+                    # a patch whose last row is incomplete: pixel i still
+                    # lands at offset + (i mod width, i div width)
+                    npix -= rng.randrange(1, w)
+                    run.count('map.partial_row_patches')
+                pkt.pixels = bytes(rng.getrandbits(8) for _ in range(npix))
             else:
                 pkt.offset, pkt.pixels = None, None
             want = {'scale': pkt.scale, 'track': pkt.is_tracking_position,
@@ -239,7 +247,9 @@ def maps(run, thorough):
                     m['pixels'][x + 128 * z] = px
             hist.append((mid, w, hgt, want['offset']))
             run.count('map.packets_applied')
-            ok = set(real.maps_by_id) == set(model)
+            ok = set(real.maps_by_id) == set(model) and all(
+                len(r.pixels) == r.width * r.height
+                for r in real.maps_by_id.values())
             if ok:
                 for k, mm in model.items():
                     r = real.maps_by_id[k]
@@ -395,6 +405,47 @@ def enums(run, thorough):
                               'parse back to the value', {
                                   'enum': cls.__name__, 'members': flags,
                                   'value': value, 'name': name})
+    # the answer for a flag value must not depend on what was asked before:
+    # twin classes with the same members are queried in different orders
+    # (ints first / other value types first); their answers must agree
+    def members_of(cls):
+        return {n: v for n, v in cls.__dict__.items()
+                if n.isupper() and isinstance(v, int)}
+    odd = [4.0, 1.0, 0.0, 64.0, 255.0, True, False, None, '4', 2.5, (4,),
+           3 + 0j]
+    for g, cls in enumerate(gen[:60 if thorough else 12]):
+        if not run.mine(g):
+            continue
+        flags = members_of(cls)
+        twin_a = type('TwinA%d' % g, (T.BitFieldEnum,), dict(flags))
+        twin_b = type('TwinB%d' % g, (T.BitFieldEnum,), dict(flags))
+        ints = list(range(256))
+
+        def ask(c, vals):
+            out = []
+            for v in vals:
+                try:
+                    out.append(c.name_from_value(v))
+                except Exception as e:
+                    out.append('raised:' + type(e).__name__)
+            return out
+        a_int = ask(twin_a, ints)
+        a_odd = ask(twin_a, odd)
+        b_odd = ask(twin_b, odd)
+        b_int = ask(twin_b, ints)
+        a_int2 = ask(twin_a, ints)
+        run.case(('enum-order', g, tuple(sorted(flags.items()))))
+        run.count('enum.order_probes')
+        if a_int != b_int or a_int != a_int2 or a_odd != b_odd:
+            j = next((i for i, (x, y) in enumerate(zip(a_int, b_int))
+                      if x != y), None)
+            run.violation('enum/history-dependent', 'the printed name of a '
+                          'flag value depends on which values were asked for '
+                          'before', {'members': flags, 'first_int_difference':
+                                     j, 'ints_first': a_int[j] if j is not None
+                                     else None, 'others_first': b_int[j]
+                                     if j is not None else None,
+                                     'odd_a': a_odd[:4], 'odd_b': b_odd[:4]})
     # plain enums: name -> attribute -> value
     if run.shard == 0:
         for cls in (T.AbsoluteHand, T.RelativeHand, T.BlockFace, T.Difficulty,
